@@ -37,7 +37,7 @@ from math import inf
 from itertools import islice
 from threading import Lock, RLock
 from functools import partial, wraps
-from concurrent.futures import ThreadPoolExecutor
+from concurrent.futures import Future, ThreadPoolExecutor
 from weakref import WeakKeyDictionary as WeakKeyDict, finalize
 from time import sleep
 from typing import (
@@ -271,7 +271,7 @@ def to_sync_iter(iterable: AsyncIterable[T],
     def _set_loop_and_queue_elements(_loop: Loop) -> None:
         try:
             if _loop.is_running():  # In another thread: hand it over
-                run_coro_ts(_queue_elements(), _loop).result()
+                _future_result(run_coro_ts(_queue_elements(), _loop))
             else:
                 aio.set_event_loop(_loop)
                 _loop.run_until_complete(_queue_elements())
@@ -299,7 +299,19 @@ def to_sync_iter(iterable: AsyncIterable[T],
             while (i := q.get()) is not _DONE:
                 yield i
         finally:
-            future.result()
+            _future_result(future)
+
+
+def _future_result(future: 'Future[T]') -> T:
+    """
+    Like ``future.result()``, but also raises an exception which is
+    falsy (e.g. one which defines ``__len__``): ``result()`` only tests
+    the truth value of the exception and would return ``None`` instead.
+    """
+    exc = future.exception()
+    if exc is not None:
+        raise exc
+    return future.result()
 
 
 _CacheMap = MutableMapping[Tuple[Any, ...], Any]
